@@ -37,7 +37,7 @@ def clone(top):
 def run(tier, seed):
     ck = Check(PID, tier, seed)
     rnd = ck.rnd
-    ck.proof = lib.proof_step('props/C04.v', matchcheck.MATCH_CONE + ['MemoFacts.v'])
+    ck.proof = lib.proof_step('props/C04.v', matchcheck.MATCH_CONE + ['MemoFacts.v', 'HistFacts.v'])
     ck.broken += ck.proof['broken']
     if not ck.proof['driver_ok']:
         return ck.finish(rule='driver unavailable')
@@ -45,8 +45,8 @@ def run(tier, seed):
     n = 100 if tier == 'quick' else 2500
     custom = {':--cust': 'p, div > span'}
     scs = []
-    for profile in ('forms', 'langdir', 'core', 'ns', 'forms', 'langdir'):
-        for sc in campaign.build(rnd, profile, n // 6 + 1, 0):
+    for profile in ('forms', 'langdir', 'core', 'ns', 'forms', 'langdir', 'radios'):
+        for sc in campaign.build(rnd, profile, n // 6 + 1 if profile != 'radios' else n // 3, 0):
             top = sc.top
             pools = gen_selectors.pools_from_soup(top)
             nsmap = rnd.choice(campaign.NSMAPS) if profile == 'ns' else None
@@ -63,9 +63,10 @@ def run(tier, seed):
             history = []
             for it in range(8):
                 s = sg.selector(1)
-                if it % 4 == 0:
+                if it % 4 == 0 or (profile == 'radios' and it % 2 == 0):
                     s = rnd.choice({'forms': [':indeterminate', ':default', 'input:indeterminate, :default',
                                               ':is(:default, :indeterminate)', ':not(:indeterminate)'],
+                                    'radios': [':indeterminate', 'input:indeterminate', ':not(:indeterminate)', ':is(:indeterminate, p)'],
                                     'langdir': [':lang("")', ':lang(en)', ':not(:lang(de))', ':lang("*")', ':lang(fr), :lang(es)',
                                                 ':lang(fr)', ':lang("en-*")']}.get(profile, [':lang("")', ':default', ':indeterminate']))
                 if it % 4 == 1 and profile == 'ns':
@@ -128,7 +129,7 @@ def run(tier, seed):
     matchcheck.run_corr(ck, scs)
     return ck.finish(
         level='proof',
-        rule='histories of 8 queries per document (forms with nested forms and radio groups, lang/meta/iframe documents, XML with '
+        rule='histories of 8 queries per document (forms with nested forms and radio groups, radio groups with mixed-case attribute names in XHTML / API-built documents, lang/meta/iframe documents, XML with '
              'prefix maps, generic) from the whole grammar, every fourth one a memoising selector (:lang via <meta>, :default, '
              ':indeterminate); each answer is compared with (a) one matcher per element, (b) module-level match per element, '
              '(c) a pristine deep copy asked in reverse order; filter(tag) vs per-child; serialisation, node identities, attribute '
